@@ -86,7 +86,12 @@ def _rechunk_for_native_window(expr, chunks_ok):
     if any(math.isnan(c) for c in chunks) or chunks_ok(chunks, expr.window):
         return None
     array = expr.array.rechunk({axis: divide_to_width(chunks, expr.window - 1)})
-    return type(expr)(array, *expr.operands[1:])
+    new = type(expr)(array, *expr.operands[1:])
+    if new.chunks != expr.chunks:
+        # parents already lowered against this node's layout (e.g. a reshape
+        # that baked its block grid) must keep seeing it
+        new = new.rechunk(expr.chunks)
+    return new
 
 
 def _sliding_layout_ok(chunks, window):
